@@ -36,6 +36,16 @@ struct Mutex {
 	void unlock_shared();
 };
 
+// PolGeo: unaligned map with slabsize != sb_size (distinguishes the two in alignment rules).
+struct PolGeo {
+	static constexpr size_t slabsize = 1 << 14;
+	static constexpr size_t sb_size = 1 << 16;
+	static constexpr size_t pagesize = 0x1000;
+	static constexpr int num_buckets = 8;
+	uintptr_t map(size_t);
+	void unmap(uintptr_t, size_t);
+};
+
 } // namespace wit
 
 namespace wit {
